@@ -460,6 +460,36 @@ def sweep(ctx, n):
             if not err < {"CylinderSegment": 2e-5, "Cylinder": 3e-6}.get(cls, 2e-7):
                 fails.append({"key": f"integral-law:{key}:{cls}", "desc": f"{'net flux of B through a closed box' if key == 'far-flux' else 'circulation of H around a circle'} 60 … 190 source sizes "
                               f"away from a {cls} is not zero (relative {err:.2g})", "replay": {"class": cls, "source": repr(src), "centre": np.asarray(c).tolist(), "rel": float(err)}})
+    # ONE TriangularMesh made of two separate bodies, each consistently wound but the second given inside-out (a mesh assembled from
+    # parts with different conventions), default reorientation: the flux of B through a closed box around a corner of EITHER body is zero
+    with warnings.catch_warnings():
+        warnings.simplefilter("ignore")
+        for i in range(max(3, n // 12)):
+            nps = np.random.default_rng(rng.randrange(2**31))
+            from oracles.sources import CUBE12
+            d1, d2 = nps.uniform(0.6, 1.4, 3), nps.uniform(0.6, 1.4, 3)
+            corners = np.array([[x, y, z] for x in (-1, 1) for y in (-1, 1) for z in (-1, 1)], float)
+            v1, v2 = corners * d1 / 2, corners * d2 / 2 + np.array([3.0, 0.4, -0.3])
+            f1 = np.array(CUBE12)
+            cen1 = v1.mean(axis=0)
+            out1 = np.array([t if np.dot(np.cross(v1[t[1]] - v1[t[0]], v1[t[2]] - v1[t[0]]), v1[list(t)].mean(axis=0) - cen1) > 0 else [t[0], t[2], t[1]] for t in f1.tolist()])
+            f2 = out1[:, ::-1] + 8  # the second body wound the other way round
+            if rng.random() < 0.5:
+                verts, faces = np.concatenate([v1, v2]), np.concatenate([out1, f2])
+            else:
+                verts, faces = np.concatenate([v1, v2]), np.concatenate([out1[:, ::-1], f2[:, ::-1]])  # first inside-out, second outwards
+            mesh2 = magpy.magnet.TriangularMesh(vertices=verts, faces=faces, polarization=nps.uniform(-1, 1, 3), check_disconnected="ignore", check_selfintersecting="ignore")
+            worst_err = 0.0
+            for vv, dd in ((v1, d1), (v2, d2)):
+                c = vv.mean(axis=0) + dd / 2 * nps.choice([-1, 1], 3) * 0.8  # a box around a point near a corner: cuts three faces
+                half = dd * nps.uniform(0.25, 0.35, 3)
+                tot, mag = box_flux(lambda p: mesh2.getB(p), c, half, 80)
+                worst_err = max(worst_err, abs(tot) / (mag + 1e-300))
+            done += 1
+            worst["flux-two-bodies"] = max(worst.get("flux-two-bodies", 0.0), float(worst_err))
+            if not worst_err < 2e-2:
+                fails.append({"key": "integral-law:flux-two-bodies", "desc": f"a TriangularMesh of two separate boxes given with opposite windings: net flux of B through a box cutting a corner of one body is not zero (relative {worst_err:.2g})",
+                              "replay": {"vertices": verts.tolist(), "faces": faces.tolist(), "rel": float(worst_err)}})
     # after the main loop (the case sequence above is unchanged): the proved Cuboid Jacobian against the real kernel
     with warnings.catch_warnings():
         warnings.simplefilter("ignore")
